@@ -847,5 +847,8 @@ func main() {
 	for _, p := range serverPrograms() {
 		h.Sched(p.name, 0, 1, p.body, raceOracle(p.name))
 	}
+	for _, p := range purePrograms() {
+		h.Sched(p.name, 0, 1, p.body, raceOracle(p.name))
+	}
 	h.Run()
 }
